@@ -224,6 +224,71 @@ fn judge_n(m: Method, n: usize, levels: &[f64], s: &mut Sink) {
     }
 }
 
+/// Breakpoint ladder of confidence levels ("all confidence levels"): tails t = 1 - L that are
+/// powers of two, powers of ten and the natural machine constants (EPSILON of f64 / f32, their
+/// square and cube roots), each with close neighbours t (1 +- 2^-22), t (1 +- 2^-12); one-sided
+/// level 1 - t, two-sided level 1 - 2t (the same quantile), and the mirrored small levels t.
+/// Along the sorted ladder a higher level must never give a narrower interval.
+fn ladder_levels() -> Vec<f64> {
+    let mut tails: Vec<f64> = vec![];
+    for j in 1..=52 {
+        tails.push(2f64.powi(-j));
+    }
+    for j in 1..=15 {
+        tails.push(10f64.powi(-j));
+    }
+    let (e64, e32) = (f64::EPSILON, f32::EPSILON as f64);
+    tails.extend([e64, e64.sqrt(), e64.cbrt(), e64.sqrt().sqrt(), e32, e32.sqrt(), e32.cbrt(), 2.0 * e64.sqrt(), 0.5 * e64.sqrt(), 2.0 * e32.sqrt(), 0.5 * e32]);
+    let mut levels = vec![];
+    for t in tails {
+        for f in [1.0, 1.0 - 2f64.powi(-22), 1.0 + 2f64.powi(-22), 1.0 - 2f64.powi(-12), 1.0 + 2f64.powi(-12)] {
+            let t = t * f;
+            for l in [1.0 - t, 1.0 - 2.0 * t, t, 2.0 * t] {
+                if l > 0.0 && l < 1.0 {
+                    levels.push(l);
+                }
+            }
+        }
+    }
+    levels.sort_by(|a, b| a.partial_cmp(b).unwrap());
+    levels.dedup();
+    levels
+}
+
+fn judge_ladder(m: Method, n: usize, k: usize, levels: &[f64], s: &mut Sink) {
+    for kind in KINDS {
+        let mut prev: Option<(f64, (f64, f64))> = None;
+        for &l in levels {
+            s.evals += 1;
+            s.calls += 1;
+            let case = || json!({"m":m,"n":n,"k":k,"kind":kind,"level":l,"relation":"ladder"});
+            let Some(b) = call(m, kind, l, n, k) else {
+                if m == Method::Wald {
+                    // (a Wald bound beyond the far end of [0,1] cannot be paired with it: no interval)
+                    s.skipped += 1;
+                    prev = None;
+                } else {
+                    s.violation(format!("{m:?}/admissible-input-not-Ok-two-sided-shape"), format!("{m:?} n={n} k={k} {} {l:e}", kind.name()), case());
+                }
+                continue;
+            };
+            s.outcome(&(m, "ladder", kind, (l.max(1.0 - l)).to_bits() >> 44));
+            if let Some((pl, pb)) = prev {
+                let slack = 1.6e-15;
+                let ok = match kind {
+                    Kind::Two => b.0 <= pb.0 + slack && b.1 >= pb.1 - slack,
+                    Kind::Upper => b.0 <= pb.0 + slack,
+                    Kind::Lower => b.1 >= pb.1 - slack,
+                };
+                if !ok {
+                    s.violation(format!("{m:?}/not-wider-with-level/{}", kind.name()), format!("n={n} k={k} {}: level {pl:?} gives [{:?}, {:?}], the higher level {l:?} gives [{:?}, {:?}]", kind.name(), pb.0, pb.1, b.0, b.1), case());
+                }
+            }
+            prev = Some((l, b));
+        }
+    }
+}
+
 fn run(tier: Tier) -> Sink {
     let nmax = tier.pick(600, 6000);
     let levels = mc::levels(tier).to_vec();
@@ -238,13 +303,28 @@ fn run(tier: Tier) -> Sink {
     let mut s = par_judge(&jobs, |&(m, n), s| judge_n(m, n, &levels, s));
     let big: Vec<(Method, usize)> = BIG_BASES.iter().flat_map(|&n| [(Method::Wilson, n), (Method::Wald, n)]).collect();
     let b = par_judge(&big, |&(m, n), s| judge_big(m, n, &levels, s));
-    s.merge(b)
+    let ladder = ladder_levels();
+    let mut lj: Vec<(Method, usize, usize)> = vec![];
+    for (n, ks) in [(20usize, vec![10usize]), (100, vec![10, 37, 50, 90]), (1000, vec![10, 500, 989]), (1usize << 20, vec![12, 1 << 19])] {
+        for k in ks {
+            lj.push((Method::Wilson, n, k));
+            lj.push((Method::Wald, n, k));
+        }
+    }
+    lj.push((Method::Wilson, 4, 2));
+    lj.push((Method::Wilson, 7, 5));
+    let l = par_judge(&lj, |&(m, n, k), s| judge_ladder(m, n, k, &ladder, s));
+    s.merge(b).merge(l)
 }
 
 fn replay_case(case: &Value, s: &mut Sink) {
     let m: Method = serde_json::from_value(case["m"].clone()).unwrap();
     let n = case["n"].as_u64().unwrap() as usize;
     // the relation involves neighbours: re-run the whole row for this n on the full grid
+    if case["relation"] == "ladder" {
+        judge_ladder(m, n, case["k"].as_u64().unwrap() as usize, &ladder_levels(), s);
+        return;
+    }
     if case["relation"].as_str().unwrap_or("").starts_with("big") {
         judge_big(m, n, &mc::LG, s);
         return;
@@ -262,7 +342,7 @@ fn main() {
     s.sample(json!({"m":"Wilson","n":30,"k":7,"kind":"Upper","level":0.95,"relations":["low(k=7)<=low(k=8)","[lo,1] = 1-[0,hi] of (30,23) Lower","low(0.95) > low(0.975)","low(60,14) > low(30,7)","0<=lo<=1"]}));
     s.sample(json!({"m":"Wald","n":40,"k":20,"kind":"Two","level":0.5,"relations":["mirror","monotone-k","level","shrink with m in {2,3,5,10}"]}));
     s.sample(json!({"m":"Wilson","n":4,"k":2,"kind":"Two","level":0.9999,"relations":["midpoint between k/n and 1/2"]}));
-    rep.rule = format!("every admissible (n,k) (Wilson: 2<=k<=n-2, Wald: 10<=k<=n-10) for n<={} x {} levels x 3 kinds through proportion::ci / ci_z_normal, plus the same proportion at (m n, m k) for m in {{2,3,5,10}} and, for n in {{4,5,20,64,100,600}}, at m in {{2^20, 2^31, 2^40}} (chain of strictly narrower intervals, mirror image and [0,1] at the big populations; a panic counts as no interval); relations checked between real runs; every table entry computed in two call orders (kinds interleaved / sweep over k at fixed confidence) which must agree bit for bit; distinct by (method, kind, k/n<1/2, level>1/2)", tier.pick(600, 6000), mc::levels(tier).len());
+    rep.rule = format!("every admissible (n,k) (Wilson: 2<=k<=n-2, Wald: 10<=k<=n-10) for n<={} x {} levels x 3 kinds through proportion::ci / ci_z_normal, plus the same proportion at (m n, m k) for m in {{2,3,5,10}} and, for n in {{4,5,20,64,100,600}}, at m in {{2^20, 2^31, 2^40}} (chain of strictly narrower intervals, mirror image and [0,1] at the big populations; a panic counts as no interval); relations checked between real runs; a breakpoint ladder of {} levels (tails at every power of two down to 2^-52, every power of ten down to 1e-15, the machine constants EPSILON / sqrt / cbrt of f64 and f32, each with neighbours at relative distance 2^-22 and 2^-12; one-sided 1-t, two-sided 1-2t and the mirrored small levels) for 16 (method, n, k) combinations: a higher level never gives a narrower interval; every table entry computed in two call orders (kinds interleaved / sweep over k at fixed confidence) which must agree bit for bit; distinct by (method, kind, k/n<1/2, level>1/2)", tier.pick(600, 6000), mc::levels(tier).len(), ladder_levels().len());
     rep.assume("strict narrowing with n is claimed for two-sided intervals at every level and for one-sided intervals at levels > 1/2 (below 1/2 the finite bound lies beyond k/n and moves towards it, which widens [bound, 1]); those cases are counted as skipped");
     rep.assume("[0,1] and midpoint clauses are asserted for the default (Wilson) interval only; Wald bounds legitimately leave [0,1]");
     rep.require(s.distinct() >= 12, "fewer than 12 distinct classes: vacuous");
